@@ -9,6 +9,7 @@ Every check does, against /repo's CURRENT working tree:
   6. verdict, evidence file, replay file
 """
 import fcntl
+import resource
 import json
 import os
 import random
@@ -320,9 +321,13 @@ class Check:
     # ---------- correspondence ----------
     def _exec(self, binary, domain, args, ops, timeout, env=None):
         data = "\n".join(ops) + "\n"
+        def limits():
+            # a runaway implementation (e.g. nodes forwarding a message to each other for ever) must not take the machine down
+            lim = 64 << 30 if binary.endswith("-race") else 12 << 30
+            resource.setrlimit(resource.RLIMIT_AS, (lim, lim))
         try:
             p = subprocess.run([binary, domain] + list(args), input=data, stdout=subprocess.PIPE, stderr=subprocess.PIPE,
-                               text=True, timeout=timeout, env=dict(os.environ, GOMEMLIMIT="4GiB", **(env or {})))
+                               text=True, timeout=timeout, env=dict(os.environ, GOMEMLIMIT="4GiB", **(env or {})), preexec_fn=limits)
         except subprocess.TimeoutExpired as e:
             out = e.stdout.decode() if isinstance(e.stdout, bytes) else (e.stdout or "")
             return out.split("\n")[:-1] if out else [], "timeout"
